@@ -7,7 +7,7 @@
 //  - EXACT: solves with the stored matrix (or with the operator it is given, column by column)
 //    by dense LU with partial pivoting in long double (class O: apply(K x) = x within 1e-9).
 //
-// usage: record_composite <mode>     mode: schur | schurO | pattern | cpr | cprO | defl
+// usage: record_composite <mode>     mode: schur | schurO | pattern | cpr | cprO | defl | deflmt
 #include <vrec.hpp>
 #include <deque>
 #include <map>
@@ -27,6 +27,7 @@
 #include <amgcl/solver/gmres.hpp>
 #include <sys/wait.h>
 #include <signal.h>
+#include <omp.h>
 
 using namespace amgcl;
 typedef long double ld;
@@ -502,9 +503,22 @@ static void cpr_case(vr::rng &g, const crsd &K, int act, const char *variant) {
 // vectors, so that the residual f - A S f the transfer operator Fpp is applied to is far from zero), the
 // pressure preconditioner is exact.  What P is asked for (Fpp (f - A S f)) and the action are compared
 // bitwise before / after partial_update(K, transfer); scalar input and B x B block-valued input.
+// a copy of K with the entries of every row in random order (a valid CRS matrix; amgcl sorts its own copy)
+static std::shared_ptr<crsd> shuffled_rows(vr::rng &g, const crsd &K) {
+    std::vector<std::vector<std::pair<int, double>>> rows(K.nrows);
+    for (size_t i = 0; i < K.nrows; ++i) {
+        for (ptrdiff_t p = K.ptr[i]; p < K.ptr[i + 1]; ++p) rows[i].push_back({(int)K.col[p], K.val[p]});
+        for (size_t k = rows[i].size(); k > 1; --k) std::swap(rows[i][k - 1], rows[i][g.below((int)k)]);
+    }
+    return vr::from_rows(K.nrows, K.ncols, rows);
+}
 template <template <class, class> class CPR, int B, bool Block>
-static void cpr_update_case(vr::rng &g, const crsd &K, int act, const char *variant) {
+static void cpr_update_case(vr::rng &g, const crsd &K, int act, const char *variant, bool shuffle = false) {
     const int n = K.nrows;
+    // shuffle: the object is built from the sorted K, partial_update gets the same matrix with unsorted rows
+    // (scalar input only: the block adapter documents sorted rows as a requirement)
+    auto Kupd = (shuffle && !Block) ? shuffled_rows(g, K) : std::shared_ptr<crsd>();
+    const crsd &Ku = Kupd ? *Kupd : K;
     std::vector<std::vector<double>> F, Sv;
     for (int r = 0; r < 3; ++r) { F.push_back(ivec(g, n, -4, 4)); Sv.push_back(ivec(g, n, -3, 3)); }
     for (int transfer = 0; transfer < 2; ++transfer) {
@@ -528,12 +542,12 @@ static void cpr_update_case(vr::rng &g, const crsd &K, int act, const char *vari
                 }
             };
             reg<0>().reset(); reg<1>().reset();
-            if (!Block) { typedef CPR<CP, CS> C; typename C::params prm; prm.block_size = B; prm.active_rows = act; C cpr(K, prm); run(cpr, double(), n, K); }
+            if (!Block) { typedef CPR<CP, CS> C; typename C::params prm; prm.block_size = B; prm.active_rows = act; C cpr(K, prm); run(cpr, double(), n, Ku); }
             else { typedef CPR<CP, typename blk<B>::S> C; typedef static_matrix<double, B, B> VT; auto Kb = adapter::block_matrix<VT>(K);
                    typename C::params prm; C cpr(Kb, prm); run(cpr, static_matrix<double, B, 1>(), n / B, Kb); }
             vr::obj o; o.b("same", same).b("rpsame", rpsame).i("d0lo", d0.lo()).i("d0hi", d0.hi()).i("d1lo", d1.lo()).i("d1hi", d1.hi()); return o.done();
         }, 20);
-        vr::obj o; o.str("k", "cprupd").str("variant", variant).i("B", B).i("act", act).i("n", n).b("block", Block).b("transfer", transfer == 1).b("hang", r.hang).b("crash", r.crash).i("sig", r.sig);
+        vr::obj o; o.str("k", "cprupd").str("variant", variant).i("B", B).i("act", act).i("n", n).b("block", Block).b("shuffled", (bool)Kupd).b("transfer", transfer == 1).b("hang", r.hang).b("crash", r.crash).i("sig", r.sig);
         o.raw("res", (r.hang || r.crash || r.text.empty()) ? "{\"same\":false,\"rpsame\":false,\"d0lo\":0,\"d0hi\":0,\"d1lo\":1,\"d1hi\":1}" : r.text);
         vr::emit(o.done());
     }
@@ -544,16 +558,17 @@ static void mode_cpr() {
     using preconditioner::cpr; using preconditioner::cpr_drs;
     for (int r = 0; r < reps; ++r) {
         int nb = g.range(2, 4);
-        { auto K = cpr_matrix(g, nb, 2, 0); cpr_case<cpr, 2>(g, *K, 0, "cpr"); cpr_case<cpr_drs, 2>(g, *K, 0, "drs"); cpr_update_case<cpr, 2, false>(g, *K, 0, "cpr"); cpr_update_case<cpr_drs, 2, false>(g, *K, 0, "drs"); cpr_update_case<cpr, 2, true>(g, *K, 0, "cpr"); }
-        { auto K = cpr_matrix(g, nb, 3, 0); cpr_case<cpr, 3>(g, *K, 0, "cpr"); cpr_case<cpr_drs, 3>(g, *K, 0, "drs"); cpr_update_case<cpr, 3, false>(g, *K, 0, "cpr"); cpr_update_case<cpr, 3, true>(g, *K, 0, "cpr"); }
+        { auto K = cpr_matrix(g, nb, 2, 0); cpr_case<cpr, 2>(g, *K, 0, "cpr"); cpr_case<cpr_drs, 2>(g, *K, 0, "drs"); cpr_update_case<cpr, 2, false>(g, *K, 0, "cpr"); cpr_update_case<cpr_drs, 2, false>(g, *K, 0, "drs"); cpr_update_case<cpr, 2, true>(g, *K, 0, "cpr");
+          cpr_update_case<cpr, 2, false>(g, *K, 0, "cpr", true); cpr_update_case<cpr_drs, 2, false>(g, *K, 0, "drs", true); }
+        { auto K = cpr_matrix(g, nb, 3, 0); cpr_case<cpr, 3>(g, *K, 0, "cpr"); cpr_case<cpr_drs, 3>(g, *K, 0, "drs"); cpr_update_case<cpr, 3, false>(g, *K, 0, "cpr"); cpr_update_case<cpr, 3, true>(g, *K, 0, "cpr"); cpr_update_case<cpr, 3, false>(g, *K, 0, "cpr", true); }
         { auto K = cpr_matrix(g, nb, 4, 0); cpr_case<cpr, 4>(g, *K, 0, "cpr"); if (r % 2 == 0) cpr_update_case<cpr, 4, true>(g, *K, 0, "cpr"); }
         // diagonal blocks with structurally missing entries (scalar input only stores the non-zeros;
         // the block adapter fills them in): the same weights, the same pressure matrix, the same action
         { auto K = cpr_matrix(g, nb + 1, 2, 0, true); cpr_case<cpr, 2>(g, *K, 0, "cpr"); cpr_update_case<cpr, 2, false>(g, *K, 0, "cpr"); }
         { auto K = cpr_matrix(g, nb + 1, 3, 0, true); cpr_case<cpr, 3>(g, *K, 0, "cpr"); cpr_case<cpr_drs, 3>(g, *K, 0, "drs"); cpr_update_case<cpr, 3, false>(g, *K, 0, "cpr"); cpr_update_case<cpr, 3, true>(g, *K, 0, "cpr"); }
-        { auto K = cpr_matrix(g, nb + 1, 4, 0, true); cpr_case<cpr, 4>(g, *K, 0, "cpr"); cpr_update_case<cpr, 4, false>(g, *K, 0, "cpr"); }
+        { auto K = cpr_matrix(g, nb + 1, 4, 0, true); cpr_case<cpr, 4>(g, *K, 0, "cpr"); cpr_update_case<cpr, 4, false>(g, *K, 0, "cpr"); cpr_update_case<cpr, 4, false>(g, *K, 0, "cpr", true); }
         // active_rows: trailing rows (wells) that are not part of the blocked reservoir unknowns
-        { int ex = g.range(1, 3); auto K = cpr_matrix(g, nb, 2, ex); cpr_case<cpr, 2>(g, *K, nb * 2, "cpr"); cpr_case<cpr_drs, 2>(g, *K, nb * 2, "drs"); cpr_update_case<cpr, 2, false>(g, *K, nb * 2, "cpr"); }
+        { int ex = g.range(1, 3); auto K = cpr_matrix(g, nb, 2, ex); cpr_case<cpr, 2>(g, *K, nb * 2, "cpr"); cpr_case<cpr_drs, 2>(g, *K, nb * 2, "drs"); cpr_update_case<cpr, 2, false>(g, *K, nb * 2, "cpr"); cpr_update_case<cpr, 2, false>(g, *K, nb * 2, "cpr", true); }
         { int ex = g.range(1, 2); auto K = cpr_matrix(g, nb, 3, ex, r % 2 == 1); cpr_case<cpr, 3>(g, *K, nb * 3, "cpr"); }
     }
 }
@@ -659,6 +674,55 @@ static void mode_defl() {
     }
 }
 
+// The set-up of the deflated solver (E = Z^T A Z) and project() with several OpenMP threads on systems that
+// are large enough for the threads to overlap: the projected residual stays orthogonal to Z and the projected
+// vector agrees with the one of a solver object built and applied with ONE thread (repeated: a data race is
+// a matter of timing).  Run with OMP_NUM_THREADS=4 OMP_WAIT_POLICY=passive.
+static void deflmt_case(vr::rng &g, const crsd &A, int nvec, int threads, int rep, const char *mname) {
+    typedef relaxation::as_preconditioner<BE, relaxation::spai0> Precond;
+    typedef deflated_solver<Precond, solver::bicgstab<BE>> DS;
+    const int n = A.nrows;
+    std::vector<double> Z((size_t)n * nvec, 0.0);
+    for (int j = 0; j < nvec; ++j) { int b = (int)((long long)j * n / nvec), e = (int)((long long)(j + 1) * n / nvec); for (int i = b; i < e; ++i) Z[(size_t)j * n + i] = 1 + ((i * 7 + j) % 3); }
+    typename DS::params prm; prm.nvec = nvec; prm.vec = Z.data();
+    std::vector<double> b(n), x0(n); for (int i = 0; i < n; ++i) { b[i] = ((i * 13 + rep) % 9) - 4 + 0.5; x0[i] = ((i * 5 + nvec) % 7) - 3; }
+    vr::obj o; o.str("k", "deflmt").str("matrix", mname).i("n", n).i("nvec", nvec).i("threads", threads).i("rep", rep);
+    try {
+        auto projected = [&](int nt) {
+            omp_set_num_threads(nt);
+            DS ds(A, prm);
+            backend::numa_vector<double> bb(b), xx(x0);
+            ds.project(bb, xx);
+            return std::vector<double>(xx.data(), xx.data() + n);
+        };
+        auto x1 = projected(1);
+        auto xt = projected(threads);
+        omp_set_num_threads(threads);
+        ld bn = 0; for (double v : b) bn += (ld)v * v; bn = sqrtl(bn);
+        std::vector<ld> xl(xt.begin(), xt.end()); auto Ax = matvecl(A, xl);
+        ld worst = 0; for (int j = 0; j < nvec; ++j) { ld sdot = 0; for (int i = 0; i < n; ++i) sdot += (ld)Z[(size_t)j * n + i] * ((ld)b[i] - Ax[i]); worst = std::max(worst, fabsl(sdot) / bn); }
+        ld dx = 0, xm = 1; for (int i = 0; i < n; ++i) { dx = std::max(dx, fabsl((ld)xt[i] - x1[i])); xm = std::max(xm, fabsl((ld)x1[i])); }
+        o.i("orth12", e12(worst)).i("dx12", e12(dx / xm)).str("exc", "");
+    } catch (const std::exception &e) { o.i("orth12", 0).i("dx12", 0).str("exc", e.what()); }
+    put(o);
+}
+static void mode_deflmt() {
+    vr::rng g(vr::env_seed() + 1806);
+    int threads = std::max(2, vr::env_int("OMP_NUM_THREADS", 4));
+    int side = vr::thorough() ? 800 : 640;
+    auto P2 = vr::poisson2d(side, side);                       // 409 600 (640 000) unknowns
+    auto N1 = nonsym_matrix(g, 60);                            // small: the race is rare here, the clause must hold anyway
+    std::vector<std::vector<std::pair<int, double>>> rows(200000);
+    for (int i = 0; i < 200000; ++i) { if (i > 0) rows[i].push_back({i - 1, -1.5}); rows[i].push_back({i, 3.0}); if (i + 1 < 200000) rows[i].push_back({i + 1, -0.5}); }
+    auto C1 = vr::from_rows(200000, 200000, rows);             // 1-D convection-diffusion, non-symmetric
+    int reps = vr::thorough() ? 4 : 2;
+    for (int rep = 0; rep < reps; ++rep) for (int nvec : {2, 3, 5}) {
+        deflmt_case(g, *P2, nvec, threads, rep, "poisson2d");
+        deflmt_case(g, *C1, nvec, threads, rep, "convection1d");
+        deflmt_case(g, *N1, nvec, threads, rep, "small");
+    }
+}
+
 int main(int argc, char **argv) {
     vr::install_terminate();
     std::string mode = argc > 1 ? argv[1] : "schur";
@@ -668,6 +732,7 @@ int main(int argc, char **argv) {
     else if (mode == "cpr") mode_cpr();
     else if (mode == "cprO") mode_cprO();
     else if (mode == "defl") mode_defl();
+    else if (mode == "deflmt") mode_deflmt();
     else { std::cerr << "unknown mode\n"; return 2; }
     vr::obj o; o.str("e", "End"); vr::emit(o.done());
     return 0;
